@@ -477,6 +477,9 @@ func runC13(w *fw.Worker) {
 	runtime.GOMAXPROCS(2)
 	debug.SetGCPercent(300)
 	staticSchema := c13SchemaFromType(reflect.TypeOf(c13Static{}))
+	if w.ReplayCase < 0 && w.Shard < 4 {
+		c13Concurrent(w)
+	}
 	w.Cases(func(i int, r *fw.Rand) {
 		if w.Shard == 0 && i == 0 {
 			c13FixedStatic(w, i)
